@@ -90,6 +90,18 @@ func Schema(r *core.Rand, o *GenOpts) []*m.Item {
 			subName = r.Pick("SubscriptionRoot", "S")
 		}
 	}
+	// without a schema definition the conventional names make the roots; a schema extension may still add a root of
+	// another name (and, further down, schema directives) on top of them
+	var extOps []m.OpType
+	if !schemaBlock && r.Chance(1, 5) {
+		if subName == "" && r.Bool() {
+			subName = r.Pick("SubscriptionRoot", "S")
+			extOps = append(extOps, m.OpType{Op: "subscription", Type: subName})
+		} else if mutName == "" {
+			mutName = r.Pick("MutationRoot", "M")
+			extOps = append(extOps, m.OpType{Op: "mutation", Type: mutName})
+		}
+	}
 	roots := []string{queryName}
 	if mutName != "" {
 		roots = append(roots, mutName)
@@ -98,11 +110,26 @@ func Schema(r *core.Rand, o *GenOpts) []*m.Item {
 		roots = append(roots, subName)
 	}
 	// with a schema block, types that merely carry a default root name are ordinary objects
+	// ... or types of any other kind: with an explicit schema definition the names mean nothing
+	other := func(name string) {
+		switch r.Intn(6) {
+		case 0:
+			g.enums = append(g.enums, name)
+		case 1:
+			g.scalars = append(g.scalars, name)
+		case 2:
+			g.inputs = append(g.inputs, name)
+		case 3:
+			g.ifaces = append(g.ifaces, name)
+		default:
+			g.objects = append(g.objects, name)
+		}
+	}
 	if schemaBlock && mutName != "Mutation" && r.Chance(1, 3) {
-		g.objects = append(g.objects, "Mutation")
+		other("Mutation")
 	}
 	if schemaBlock && subName != "Subscription" && r.Chance(1, 4) {
-		g.objects = append(g.objects, "Subscription")
+		other("Subscription")
 	}
 	if schemaBlock && queryName != "Query" && r.Chance(1, 4) {
 		g.objects = append(g.objects, "Query")
@@ -262,6 +289,17 @@ func Schema(r *core.Rand, o *GenOpts) []*m.Item {
 		g.order = append(g.order, schemaItem)
 	}
 
+	if !schemaBlock && (len(extOps) > 0 || r.Chance(1, 6)) {
+		ext := &m.Item{Kind: "schema", Extend: true, OpTypes: extOps}
+		ext.Dirs = g.maybeDirs("SCHEMA", nil, "")
+		if len(ext.OpTypes) == 0 {
+			ext.NoBody = true
+		}
+		if len(ext.OpTypes) > 0 || len(ext.Dirs) > 0 {
+			at := r.Intn(len(g.order) + 1)
+			g.order = append(g.order[:at], append([]*m.Item{ext}, g.order[at:]...)...)
+		}
+	}
 	// directive applications at every definitional location
 	g.applyAll(schemaItem)
 	if o.Descs {
@@ -711,6 +749,9 @@ func (g *sgen) desc() (string, bool) {
 
 func (g *sgen) describeAll() {
 	for _, it := range g.order {
+		if it.Extend {
+			continue // the grammar gives extensions no description
+		}
 		it.Desc, it.HasDesc = g.desc()
 		it.DescBlock = g.r.Bool()
 		for _, f := range it.Fields {
@@ -734,7 +775,17 @@ func (g *sgen) split(items []*m.Item, schemaItem *m.Item) []*m.Item {
 	var out []*m.Item
 	for _, it := range items {
 		out = append(out, it)
-		if !r.Chance(1, 3) {
+		if it.Extend || !r.Chance(1, 3) {
+			continue
+		}
+		if (it.Kind == "type" || it.Kind == "interface") && len(it.Interfaces) > 0 && r.Chance(1, 4) {
+			// an extension without a body: it only adds the interfaces (and possibly directives)
+			ext := &m.Item{Kind: it.Kind, Extend: true, Name: it.Name, Interfaces: it.Interfaces}
+			it.Interfaces = nil
+			if len(it.Dirs) > 0 && r.Bool() {
+				ext.Dirs, it.Dirs = it.Dirs, nil
+			}
+			out = append(out, ext)
 			continue
 		}
 		switch it.Kind {
